@@ -52,6 +52,9 @@ func main() {
 			code = cmdExplain(os.Args[2:])
 		case "selftest":
 			code = pc.CmdSelftest(os.Args[2:], verifDir())
+		case "grammar":
+			prog := pc.Load("/repo")
+			fmt.Print(prog.Grammar().Dump())
 		case "list":
 			for _, id := range pc.PropertyIDs() {
 				fmt.Println(id)
